@@ -176,6 +176,12 @@ def check_C02(tier):
                            place_idx=sorted(rng.sample(range(1, 649), 24 if quick else 80)))
     combos = [(7, 0), (12, 2**64 - 1)] if quick else [(p, s) for p in range(7, 17) for s in (0, 1, 2**32, 2**63, 2**64 - 1)]
     H.replay_edges(rep, edges, combos, rng, max_places=None if quick else 12)
+    # the merge tree the library itself builds: helpers.parallel_merging on 2..5 shared-memory sketches
+    import padd as PA
+    pb = PA.Batch()
+    for N in ([2, 3, 5] if quick else [1, 2, 3, 4, 5]):
+        PA.direct_merging(rep, rng, N, pb)
+    pb.validate(rep, "c02pm")
     n = 80 if quick else 800
     traces = [H.random_history(rng) if i % 3 else H.partition_history(rng) for i in range(n)]
     for i in range(0, n, 200):
@@ -636,12 +642,13 @@ def check_C19(tier):
     combos = [all3, {"cms", "hll"}, {"hh"}, {"cms"}]
     if quick:
         scen = [(2, 4, 1, None), (1, 3, 3, None), (3, 4, 2, None), (2, 4, 0, (1, 1)), (2, 4, 1, (2, 1)), (3, 4, 0, (1, 2)),
-                (2, 8, 0, (1, 1)), (2, 9, 0, (2, 2))]       # more items than the queue holds: the filler is still busy
+                (2, 8, 0, (1, 1)), (2, 9, 0, (2, 2)),       # more items than the queue holds: the filler is still busy
+                (1, 3, 0, (1, 2)), (1, 5, 0, (1, 1))]       # a single worker: nobody else is running when it dies
         per = 4
     else:
         scen = [(n, k, fs, None) for n in (1, 2, 3) for k in (3, 5) for fs in (1, 2, 3)] + \
                [(n, 4, fs, d) for n in (2, 3) for fs in (0, 1) for d in ((1, 1), (1, 2), (2, 1))] + \
-               [(2, 8, 0, (1, 1)), (2, 9, 1, (2, 2)), (3, 11, 0, (2, 1))]
+               [(2, 8, 0, (1, 1)), (2, 9, 1, (2, 2)), (3, 11, 0, (2, 1)), (1, 3, 0, (1, 2)), (1, 5, 1, (1, 1)), (1, 4, 0, (1, 2))]
         per = 12
     batch, ok = _padd_replays(rep, rng, scen, per, combos, "c19")
     if ok:
@@ -733,7 +740,8 @@ def check_C14(tier):
         key = bytes(rng.randrange(256) for _ in range(rng.choice([0, 1, 3, 7, 8, 9, 16, 23])))
         W = widths[i % 4]
         kind = ["linear", "log16", "log8"][i % 3]
-        cols = impl.cm_cols(lambda: cm.CountMin(kind, W, 8), key)
+        depth = [8, 1, 3, 5, 2, 7][i % 6]                  # even and odd depths
+        cols = impl.cm_cols(lambda: cm.CountMin(kind, W, depth), key)
         for r, c in enumerate(cols):
             calls.append({"fn": "cmcol", "key": list(key), "row": r, "W": W, "out": c})
         if i % 8 == 0:
@@ -757,15 +765,23 @@ def check_C14(tier):
         rep.count_action("cmcol", len(calls))
     # stage 2 (tolerant, decides): joint column distribution of every pair of rows + documented bound
     N = 4096 if quick else 20000
-    W, D = 4, (4 if quick else 8)
+    W = 4
     keys = [bytes(rng.randrange(256) for _ in range(rng.randint(1, 12))) + i.to_bytes(3, "little") for i in range(N)]
-    cols = np.array([impl.cm_cols(lambda: cm.CountMinLinear(W, D), k) for k in keys]) - 1
     stat = []
-    for a in range(D):
-        for b in range(a + 1, D):
-            cnt = np.zeros((W, W), int)
-            np.add.at(cnt, (cols[:, a], cols[:, b]), 1)
-            stat.append({"fn": "joint", "counts": cnt.tolist(), "n": N, "W": W, "out": "ok", "rows": [a, b]})
+    for D, mk in ((3, lambda: cm.CountMinLinear(W, 3)), (4, lambda: cm.CountMinLog8(W, 4)),
+                  (5, lambda: cm.CountMinLog16(W, 5))) + (() if quick else ((8, lambda: cm.CountMinLinear(W, 8)),
+                                                                            (7, lambda: cm.CountMinLog8(W, 7)))):
+        cols = np.array([impl.cm_cols(mk, k) for k in keys]) - 1
+        for a in range(D):
+            for b in range(a + 1, D):
+                cnt = np.zeros((W, W), int)
+                np.add.at(cnt, (cols[:, a], cols[:, b]), 1)
+                stat.append({"fn": "joint", "counts": cnt.tolist(), "n": N, "W": W, "out": "ok", "rows": [a, b], "depth": D})
+    # a single row (depth 1) must use every column
+    c1 = np.array([impl.cm_cols(lambda: cm.CountMinLinear(16, 1), k) for k in keys[:2048]]) - 1
+    cnt = np.zeros((4, 4), int)
+    np.add.at(cnt, (c1[:, 0] // 4, c1[:, 0] % 4), 1)
+    stat.append({"fn": "joint", "counts": cnt.tolist(), "n": 2048, "W": 4, "out": "ok", "rows": [0, 0], "depth": 1})
     # Zipf stream: a few keys heavier than e*N/width
     zw, zd, zn = (64, 8, 5000) if quick else (32, 8, 20000)
     sk = cm.CountMinLinear(zw, zd)
